@@ -149,6 +149,15 @@ def nonnumeric_text(r, n=None):
     return 'T' + s if s else 'T'
 
 
+#: how a cast dtype is handed over: the numpy type class, a dtype instance, a dtype instance of explicit byte order
+#: (np.dtype('>f4'), some_big_endian_array.dtype): the declared cast names a TYPE; the order in the file is big-endian anyway
+CAST_FORMS = ('type', 'dtype', 'dtype>', 'dtype<', 'type', 'dtype>')
+
+
+def cast_form(r):
+    return r.choice(CAST_FORMS)
+
+
 def gen_dt(r):
     us = r.choice([0, 0, 499, 500, 1000, 123456, 999499, 999500, 999999])   # (the last two: the millisecond field saturates at 999, the second is NOT wrapped)
     tz = r.choice([None, 0, 0, 60, -300, 330, 840, -720])
@@ -374,7 +383,7 @@ def frame_spec(r: random.Random, mx=None, rows=None, nch=None, sources=('inline'
             fill = {'kind': r.choice(list(fills)), 'tag': tag, 'seed': r.randrange(1 << 30)}
             kw = {}
             if casts and r.random() < 0.4:
-                kw['cast_dtype'] = {'$dtype': r.choice(DTYPES), 'as': r.choice(['type', 'dtype'])}
+                kw['cast_dtype'] = {'$dtype': r.choice(DTYPES), 'as': cast_form(r)}
                 fill = {'kind': 'safe', 'tag': tag}
             if dataset_names and r.random() < 0.3:
                 kw['dataset_name'] = ('/' if (source == 'hdf5' and r.random() < 0.3) else '') + f'ds_{f}_{c}'
@@ -415,7 +424,7 @@ def int_cast_spec(r: random.Random, **kw) -> dict:
     for o in sp['ops']:
         if o['op'] == 'channel' and r.random() < 0.7:
             cur = o['data']['dtype'][1:]
-            o['cast_dtype'] = {'$dtype': r.choice([d for d in ints if np.dtype(d).str[1:] != cur]), 'as': r.choice(['type', 'dtype'])}
+            o['cast_dtype'] = {'$dtype': r.choice([d for d in ints if np.dtype(d).str[1:] != cur]), 'as': cast_form(r)}
     return sp
 
 
@@ -438,7 +447,7 @@ def float_cast_spec(r: random.Random, sources=('inline', 'dict', 'struct', 'hdf5
         ops.append(channel_op('IDX', '<f8', (n,), fill={'kind': 'pos', 'tag': 1}))
     ops.append(channel_op('X', src, shape, fill={'kind': 'oor', 'bad_at': bad_at},
                               layout=r.choice(['C', 'C', 'strided', 'view', 'F' if len(shape) > 1 else 'C']),
-                              cast_dtype={'$dtype': dst, 'as': r.choice(['type', 'dtype'])}))
+                              cast_dtype={'$dtype': dst, 'as': cast_form(r)}))
     xi = len(ops) - 1
     if not single:
         for j in range(r.choice([0, 0, 1, 2])):
@@ -498,7 +507,7 @@ def float_cast_boundary_spec(k: int, sources=('inline', 'dict', 'struct', 'hdf5'
     if not single:
         ops.append(channel_op('IDX', '<f8', (n,), fill={'kind': 'pos', 'tag': 1}))
     ops.append(channel_op('X', src, (n,), fill={'kind': 'oor', 'bad_at': [], 'bad_values': [[pos, v]]},
-                          layout=('C', 'strided', 'view')[(k + q) % 3], cast_dtype={'$dtype': dst, 'as': ('type', 'dtype')[k % 2]}))
+                          layout=('C', 'strided', 'view')[(k + q) % 3], cast_dtype={'$dtype': dst, 'as': CAST_FORMS[k % len(CAST_FORMS)]}))
     xi = len(ops) - 1
     ops.append(frame_op('FR', [i for i, o in enumerate(ops) if o['op'] == 'channel']))
     sp['write'] = {'source': sources[(k + q) % len(sources)], 'input_chunk_size': (None, 1, 2)[(k // 2 + q) % 3] if n > 1 else None,
